@@ -7,13 +7,13 @@ Open Scope N_scope.
 
 Definition pinned_virtual : backend := {|
   b_store := [ONorm; OSlash; OFold]; b_get := [ONorm; OSlash; OFold]; b_exists := [ONorm; OSlash; OFold];
-  b_open := [ONorm; OSlash; OFold]; b_wfolder := [ONorm; OSlash; OFold]; b_wsubj := SOrig; b_wsubj_ops := [] |}.
+  b_open := [ONorm; OSlash; OFold]; b_wsrc := WDict; b_wfolder := [ONorm; OSlash; OFold]; b_wsubj := SOrig; b_wsubj_ops := [] |}.
 Definition pinned_zip : backend := {|
   b_store := [OFold]; b_get := [OSlash; OFold]; b_exists := [OSlash; OFold]; b_open := [OSlash; OFold];
-  b_wfolder := [OSlash; OFold]; b_wsubj := SKey; b_wsubj_ops := [] |}.
+  b_wsrc := WDict; b_wfolder := [OSlash; OFold]; b_wsubj := SKey; b_wsubj_ops := [] |}.
 Definition pinned_vpk : backend := {|
   b_store := [OSlash; OFold]; b_get := [OFold; OSlash]; b_exists := [OFold; OSlash]; b_open := [OFold; OSlash];
-  b_wfolder := [OSlash]; b_wsubj := SDir; b_wsubj_ops := [] |}.
+  b_wsrc := WDict; b_wfolder := [OSlash]; b_wsubj := SDir; b_wsubj_ops := [] |}.
 
 Definition s_mat : str := [109; 97; 116].                                (* "mat" *)
 Definition s_materials_x : str := [109; 97; 116; 101; 114; 105; 97; 108; 115; 47; 120].   (* "materials/x" *)
@@ -22,10 +22,10 @@ Definition s_Mat_x : str := [77; 97; 116; 47; 120].                       (* "Ma
 Definition fixed_virtual : backend := {|
   b_store := [ONorm; OSlash; OFold]; b_get := [ONorm; OSlash; OFold]; b_exists := [ONorm; OSlash; OFold];
   b_open := [ONorm; OSlash; OFold];
-  b_wfolder := [ONorm; OSlash; OFold; ODotEmpty; ORStrip; OAddSlash]; b_wsubj := SKey; b_wsubj_ops := [] |}.
+  b_wsrc := WDict; b_wfolder := [ONorm; OSlash; OFold; ODotEmpty; ORStrip; OAddSlash]; b_wsubj := SKey; b_wsubj_ops := [] |}.
 Definition fixed_zip : backend := {|
   b_store := [OFold]; b_get := [OSlash; OFold]; b_exists := [OSlash; OFold]; b_open := [OSlash; OFold];
-  b_wfolder := [OSlash; OFold; ORStrip; OAddSlash]; b_wsubj := SKey; b_wsubj_ops := [] |}.
+  b_wsrc := WDict; b_wfolder := [OSlash; OFold; ORStrip; OAddSlash]; b_wsubj := SKey; b_wsubj_ops := [] |}.
 
 Lemma order_matters_for_case_duplicates : exists fs fs' q,
   Permutation fs fs' /\ clean_fs fs = true /\ spec_lookup fs q <> spec_lookup fs' q.
@@ -68,3 +68,41 @@ Lemma chain_relpath_case_refuted :
   /\ map fst (chain_walk_repeat RelDropSegs [m] []) = [[120]].
 Proof. split; reflexivity. Qed.
 
+
+(** ** round 2: shapes of [walk_folder] that the translator recognises but that are unsound *)
+
+(** VPKFileSystem.walk_folder looping over [self.vpk.fileinfos(folder=folder.rstrip('/'))] and then testing the
+    case-folded file name: the container compares its directory names as stored. *)
+Definition prefilter_vpk : backend := {|
+  b_store := [OSlash; OFold]; b_get := [OFold; OSlash]; b_exists := [OFold; OSlash]; b_open := [OFold; OSlash];
+  b_wsrc := WCont (Some [OSlash; OFold; ORStrip; OAddSlash; ORStrip]);
+  b_wfolder := [OSlash; OFold; ORStrip; OAddSlash]; b_wsubj := SOrig; b_wsubj_ops := [OFold] |}.
+(** ... and looping over the container itself (no pre-filter): every stored file is visited, also those the folded
+    dictionary dropped. *)
+Definition container_vpk : backend := {|
+  b_store := [OSlash; OFold]; b_get := [OFold; OSlash]; b_exists := [OFold; OSlash]; b_open := [OFold; OSlash];
+  b_wsrc := WCont None;
+  b_wfolder := [OSlash; OFold; ORStrip; OAddSlash]; b_wsubj := SOrig; b_wsubj_ops := [OFold] |}.
+
+Lemma walk_prefilter_case_refuted :
+  prefilter_case_sensitive prefilter_vpk = true /\ walk_ok prefilter_vpk = false
+  /\ walk prefilter_vpk [(s_Mat_x, [])] s_mat = []
+  /\ lookup prefilter_vpk [(s_Mat_x, [])] (s_mat ++ [47; 120]) = Some (s_Mat_x, [])
+  /\ walk prefilter_vpk [(s_Mat_x, [])] [] = [(s_Mat_x, [])].
+Proof. repeat split; reflexivity. Qed.
+
+Lemma walk_container_duplicates_refuted :
+  walk_ok container_vpk = false
+  /\ walk container_vpk [(s_Mat_x, [1]); (s_mat ++ [47; 120], [2])] s_mat = [(s_Mat_x, [1]); (s_mat ++ [47; 120], [2])]
+  /\ lookup container_vpk [(s_Mat_x, [1]); (s_mat ++ [47; 120], [2])] s_Mat_x = Some (s_mat ++ [47; 120], [2]).
+Proof. repeat split; reflexivity. Qed.
+
+(** De-duplication by unconditional dict store: the name is listed once, at the position of the first member, but with
+    the File of the last one - which is not what the chain's lookup returns. *)
+Lemma chain_walk_overwrite_refuted :
+  let m1 := member_of fixed_zip [([120], [1])] [] in
+  let m2 := member_of fixed_zip [([120], [2])] [] in
+  chain_walk_mode DedupOverwrite RelDropSegs [OFold] [m1; m2] [] = [([120], ([120], [2]))]
+  /\ chain_get [m1; m2] [120] = Some ([120], [1])
+  /\ chain_walk_mode DedupSkip RelDropSegs [OFold] [m1; m2] [] = [([120], ([120], [1]))].
+Proof. repeat split; reflexivity. Qed.
